@@ -87,14 +87,14 @@ def run(ctx):
                             "provider, return pool None/0/''/[]/[1,2]/()/{}/str/float, internal/self/multi-event "
                             "transitions, both engines; non-trivial = an executed transition had >=2 contributing "
                             "callbacks or a single one returning None/a container")
-    engine_check(ctx, PROFILE, 700, 16000, nontrivial, monitor=c14_monitor, tag="C14s", mutate=lambda rng, s: (second_providers(rng, s), gen.late_listeners(rng, s)))
+    engine_check(ctx, PROFILE, 700, 16000, nontrivial, monitor=c14_monitor, tag="C14s", mutate=lambda rng, s: (second_providers(rng, s), gen.late_listeners(rng, s)), share=0.4)
     cov0 = dict(ctx.coverage)
-    engine_check(ctx, PROFILE_SPARSE, 350, 8000, nontrivial, monitor=c14_monitor, tag="C14n", expand=chained_variants)
+    engine_check(ctx, PROFILE_SPARSE, 350, 8000, nontrivial, monitor=c14_monitor, tag="C14n", expand=chained_variants, share=0.4)
     cov1 = dict(ctx.coverage)
     for k in ("evaluations", "distinct_nontrivial", "traces_validated_against_impl", "disagreements", "monitor_failures"):
         cov1[k] = cov1.get(k, 0) + cov0.get(k, 0)
     ctx.coverage["distribution_nested"] = ctx.coverage.get("distribution")
-    engine_check(ctx, PROFILE_ASYNC, 300, 8000, nontrivial, monitor=c14_monitor, tag="C14a", mutate=gen.late_listeners)
+    engine_check(ctx, PROFILE_ASYNC, 300, 8000, nontrivial, monitor=c14_monitor, tag="C14a", mutate=gen.late_listeners, share=0.5)
     for k in ("evaluations", "distinct_nontrivial", "traces_validated_against_impl", "disagreements", "monitor_failures"):
         ctx.coverage[k] = ctx.coverage.get(k, 0) + cov1.get(k, 0)
     ctx.coverage["distribution_sync"] = cov1.get("distribution")
